@@ -28,6 +28,8 @@ def strat_line():
     def case(draw):
         C = draw(st.integers(2, 7))
         labels = draw(st.lists(st.integers(0, C - 2), min_size=1, max_size=8))
+        if draw(st.integers(0, 11)) == 0:       # a text line of ordinary length: 50-100 characters
+            labels = draw(st.lists(st.integers(0, C - 2), min_size=49, max_size=100))
         return dict(C=C, labels=labels, seed=draw(st.integers(0, 2 ** 31 - 1)),
                     confuse=draw(st.sampled_from([0.0, 0.3, 0.8])), peak=draw(st.sampled_from([(6.0, 14.0), (1.0, 3.0), (25.0, 30.0)])),
                     full=draw(st.booleans()), shifts_seed=draw(st.integers(0, 2 ** 31 - 1)),
@@ -175,8 +177,9 @@ def body_alto(ctx, case):
     labels = case["labels"]
     desc = lambda: "case=%r" % (case,)
 
-    def export(shift):
+    def export(shift, prior=None):
         line, full, dense = make_line(case, shift=shift)
+        line.transcription_confidence = prior
         T = dense.shape[0]
         line.baseline = np.asarray([[10.0, 60.0], [10.0 + 9 * T, 62.0]])
         line.heights = [20.0, 8.0]
@@ -194,6 +197,14 @@ def body_alto(ctx, case):
         wcs = [float(x) for x in re.findall(r'WC="([^"]+)"', xml)]
         return wcs, line.transcription_confidence, al, T
     wc0, conf0, al0, T = export(None)
+    # a line that already carries a confidence (loaded from PAGE XML, set by an earlier stage): the exported numbers
+    # are computed from the posteriors all the same
+    prior = [1.0, 1, 0.37, 0.0][case["seed"] % 4]
+    wcp, confp, _, _ = export(None, prior=prior)
+    ctx.check(wcp == wc0, "word_confidences_depend_on_stored_line_confidence",
+              lambda: "stored %r: WC %r, without %r; " % (prior, wcp, wc0) + desc())
+    ctx.check(confp is not None and abs(float(confp) - float(conf0)) < 1e-12, "line_confidence_after_export_depends_on_stored_value",
+              lambda: "stored %r: %r, without %r; " % (prior, confp, conf0) + desc())
     rs = np.random.RandomState(case["shifts_seed"])
     shift = rs.uniform(-5, 5, size=T + 8)
     wc1, conf1, al1, _ = export(shift)
